@@ -165,13 +165,14 @@ def run(R, tier):
     bad = []
     n = 0
     for b in u.bodies:
-        if not (b.npath.startswith("scpi::tree::") or b.npath.startswith("scpi::parser::parameters::")):
+        if not (b.npath.startswith("scpi::tree::") or b.npath.startswith("scpi::parser::parameters::") or D.takes_token_stream(b.npath)):
             continue
         for c in b.calls():
             argt = c.term.get("argtys", [])
             if argt and "Peekable<parser::tokenizer::Tokenizer" in argt[0]:
                 n += 1
-                inside = c.rname.startswith(("scpi::tree::", "scpi::parser::parameters::")) and not c.rname.startswith("scpi::tree::command::")
+                # handing the stream to another function of the library is fine when that function is itself examined here
+                inside = (c.rname.startswith(("scpi::tree::", "scpi::parser::parameters::")) and not c.rname.startswith("scpi::tree::command::")) or D.takes_token_stream(c.rname)
                 if c.rname not in allowed and c.name not in allowed and not inside and not c.name.endswith(("Parameters::with", "Node::exec", "Node::run_tokens", "Command::event", "Command::query")):
                     bad.append("%s in %s" % (c.name, b.npath))
     R.check(not bad, "R05.7", "stream-ops", "the shared token stream is only peeked / advanced (%d call sites)" % n, "token stream used by %s: it may only be peeked or advanced, never cloned, rewound or replaced" % bad)
@@ -182,7 +183,7 @@ def run(R, tier):
     # unit must fail there. Every fallible write's result has to be examined (and its Err returned) or be the return
     # value itself - a result parked in a struct, folded away or overwritten lets the handler run on a failed buffer.
     from . import emit as E
-    impls = u.impl_methods("parser::response::Formatter", "response_unit")
+    impls = [u.trait_method("parser::response::Formatter", "response_unit", w) for w in ("arrayvec::ArrayVec", "alloc::vec::Vec") if any(w in (x.impl_self or "") for x in u.bodies if "parser::response::Formatter" in (x.impl_trait or ""))]
     R.floor("R05.8", "Formatter::response_unit impls", len(impls), 2)
     n_fail = 0
     for b in impls:
@@ -214,6 +215,7 @@ def run(R, tier):
             return [("n=%d" % n, fdai.ListV([Cell(SymV("el%d" % i, "el%d" % i), "el%d" % i) for i in range(n)])) for n in (1, 2, 3)]
         return [("any", TOP)]
 
+    em_enum = E.engine({"scpi::option::ScpiEnum::mnemonic": (lambda eng_, st, fr, t, name, rname, args: M._mkslice(b"CHannel12"))})
     n_w = 0
     for unit in P.units:
         for b in unit.bodies:
@@ -221,9 +223,13 @@ def run(R, tier):
                 continue
             n_w += 1
             why = []
+            eng_w = em
+            if (b.impl_self or "") == "T":
+                # the blanket writer of ScpiEnum types: an enum whose mnemonic is a representative constant
+                eng_w = em_enum
             for label, val in reps(b.impl_self):
                 try:
-                    res = em.run(b, [RefV(Cell(val, "self")), RefV(Cell(TOP, "fmt"), (), True)])
+                    res = eng_w.run(b, [RefV(Cell(val, "self")), RefV(Cell(TOP, "fmt"), (), True)])
                     why += ["%s: %s" % (label, w) for w in E.check_write_discipline(res)]
                 except (fdai.TooManyPaths, RecursionError) as e:
                     why.append("%s: undecided (%s)" % (label, type(e).__name__))
